@@ -45,6 +45,20 @@ def send (e : Eng) (target : Option Key) (msg : Payload) (sender : Option Key) :
     else if e.hasRemote then .remoteSend t
     else .remoteMissing t msg sender
 
+/-- outcome of `Engine.sendPoisonPill` (behind Stop / Poison / PoisonCtx). -/
+inductive PoisonOut where
+  | queued (id : String)                   -- the pill is handed to the registered process: its context becomes done when
+                                           --   that process has stopped (process model, C07.cancel_last)
+  | deadLetterDone (target : Option Key)   -- no such process: one DeadLetterEvent (target as given, the pill, no sender)
+                                           --   and the returned context is done at once
+deriving DecidableEq, Repr
+
+/-- `Engine.sendPoisonPill`: the registry is consulted by id (the address of the PID is not looked at). -/
+def poison (e : Eng) (target : Option Key) : PoisonOut :=
+  match target with
+  | none => .deadLetterDone none
+  | some t => if e.registered t.id then .queued t.id else .deadLetterDone (some t)
+
 /-- `Engine.canDeliver`. -/
 def deliverable (e : Eng) (k : Key) : Bool :=
   if k.address = e.address then e.registered k.id else e.hasRemote
